@@ -9,6 +9,7 @@ CONSTANTS
     CapN = 1
     Cache = 4096
     Compress = FALSE
+    CapProbe = TRUE
     Debug = FALSE
     HookMode = "ok"
 VIEW View
